@@ -6,6 +6,7 @@ import (
 	"bytes"
 	"fmt"
 	"github.com/fluhus/biostuff/align"
+	"slices"
 	"testing"
 
 	"pgregory.net/rapid"
@@ -118,6 +119,10 @@ func checkC08(c AlignCase, o *Obs) error {
 	}
 	gaps, _, _ := gapStats(res.steps)
 	o.NT = gaps > 0 || len(c.A) != len(c.B)
+	if c.Light {
+		o.Class("table of 2^16..2^21 cells, one call only")
+		return nil
+	}
 	// a further call (arguments swapped) must be valid too and must not disturb the first result
 	sw := c
 	sw.A, sw.B = c.B, c.A
@@ -162,6 +167,34 @@ func checkC08(c AlignCase, o *Obs) error {
 		}
 		if err := checkValidity(self, rm, resSelf, &Obs{}); err != nil {
 			return fmt.Errorf("with one slice passed as both sequences: %v", err)
+		}
+	}
+	// The caller keeps the pair in two buffers and refills them in place for the next pair (same
+	// slices, same lengths, other contents): first b alone, then a.
+	{
+		bufA, bufB := bytes.Clone(c.A), bytes.Clone(c.B)
+		cur := c
+		cur.SameSlice = false
+		if _, err := runAlignOn(cur, bufA, bufB, m); err != nil {
+			return err
+		}
+		for step := 0; step < 2; step++ {
+			if step == 0 {
+				slices.Reverse(bufB)
+				cur.B = gen.B(bytes.Clone(bufB))
+			} else if len(bufA) > 1 {
+				first := bufA[0]
+				copy(bufA, bufA[1:])
+				bufA[len(bufA)-1] = first
+				cur.A = gen.B(bytes.Clone(bufA))
+			}
+			r2, err := runAlignOn(cur, bufA, bufB, m)
+			if err != nil {
+				return fmt.Errorf("after the caller refilled its sequence buffers in place (now %q, %q): %v", bufA, bufB, err)
+			}
+			if err := checkValidity(cur, rm, r2, &Obs{}); err != nil {
+				return fmt.Errorf("after the caller refilled its sequence buffers in place (they held %q, %q for the call before): %v", []byte(c.A), []byte(c.B), err)
+			}
 		}
 	}
 	if applyMutation(c, m, rm) {
@@ -216,6 +249,9 @@ func fixedMatrices(openValues []int, localOK bool) []MatSpec {
 
 func exhaustiveC08(thorough bool, emit func(AlignCase) bool) {
 	if !realAlignCases([]int{0}, []int{1025}, emit) || !realAlignCases([]int{-2, -6}, nil, emit) {
+		return
+	}
+	if !megaAlignCases([]int{-3, 0}, !thorough, emit) || !levLikeCases(emit) {
 		return
 	}
 	maxLen := 4
